@@ -39,6 +39,39 @@ def ob_kernel(W, backend, fam, mode, L, starts, order, N, om, stats):
             W.goal(nm, W.eq(g, r))
 
 
+def ob_kernel_many(W, backend, fam, mode, L, start_list, order, N, stats, chunk=None):
+    """the same obligation for a list of start vectors (one symbolic record, window, angle)"""
+    x = W.reals("x", N)
+    y = W.reals("y", N) if mode == "csd" else x
+    w = W.reals("w", L)
+    omega = W.omega("w")
+    for sv in start_list:
+        got = K.run(W, backend, fam, mode, x, y, list(sv), L, w, omega, order, chunk=chunk)
+        ref = K.reference(W, x, y, list(sv), L, w, omega, order, mode)
+        tag = "s" + "-".join(map(str, sv))
+        for nm, g, r in zip(K.STAT_NAMES, got, ref):
+            if nm in stats:
+                W.goal("%s/%s" % (tag, nm), W.eq(g, r))
+
+
+def ob_reuse(W, backend, fam, mode, L, starts, order, N):
+    """call history: a second call with the SAME record buffers overwritten in place and a NEW window of the same length
+    must give the statistics of the new contents (nothing cached from the first call may be reused)"""
+    import numpy as rnp
+    x = W.reals("x", N); y = W.reals("y", N) if mode == "csd" else x
+    w = W.reals("w", L); w2 = W.reals("v", L)
+    x2 = W.reals("p", N); y2 = W.reals("q", N) if mode == "csd" else x2
+    omega = W.omega("w")
+    K.run(W, backend, fam, mode, x, y, starts, L, w, omega, order)
+    x[:] = x2
+    if mode == "csd":
+        y[:] = y2
+    got = K.run(W, backend, fam, mode, x, y, starts, L, w2, omega, order)
+    ref = K.reference(W, x2, y2, starts, L, w2, omega, order, mode)
+    for nm, g, r in zip(K.STAT_NAMES[:4], got, ref):
+        W.goal("second-call/" + nm, W.eq(g, r))
+
+
 def _start_vectors(N, L, Kn, full):
     rng = range(0, N - L + 1)
     vs = list(itertools.product(rng, repeat=Kn))
@@ -88,6 +121,25 @@ def obligations(tier):
                                 for pi, pt in enumerate(pts):
                                     obs.append({"name": nm[:-3] + "pt%d" % pi, "fn": "ob_kernel", "weight": L * L * Kn * 2,
                                                 "params": dict(backend=backend, fam=fam, mode=mode, L=L, starts=sv, order=order, N=N, om=[str(pt[0]), str(pt[1])], stats=["M2"])})
+    # K = 3 and 4: every start vector over {0..3} (repeated, unsorted, irregular with regular end points ...) at L=1,2, chunk loop of
+    # the NumPy fallbacks exercised with _chunk=2; first-order statistics
+    allv = {k: list(itertools.product(range(4), repeat=k)) for k in (3, 4)}
+    for backend in K.BACKENDS:
+        for order in (-1, 0, 1, 2):
+            fam = K.family_of(order)
+            for mode in ("auto", "csd"):
+                for L in ((1, 2) if (tier == "thorough" or backend == "numpy") else (1,)):
+                    if mode == "auto" and L == 1 and fam != "win_only":
+                        continue
+                    for Kn in (3, 4):
+                        vs = allv[Kn]
+                        if backend != "numpy" and tier == "quick":
+                            vs = vs[::7]
+                        for ci in range(0, len(vs), 32):
+                            obs.append({"name": "%s/%s_%s/o%d/L%d/K%d-all/%d" % (backend, fam, mode, order, L, Kn, ci // 32), "fn": "ob_kernel_many", "weight": 6,
+                                        "params": dict(backend=backend, fam=fam, mode=mode, L=L, start_list=[list(v) for v in vs[ci:ci + 32]], order=order, N=L + 3, stats=first, chunk=2)})
+                obs.append({"name": "%s/%s_%s/o%d/reuse" % (backend, fam, mode, order), "fn": "ob_reuse", "weight": 3,
+                            "params": dict(backend=backend, fam=fam, mode=mode, L=3, starts=[1, 0], order=order, N=5)})
     seen, out = set(), []
     for o in obs:
         if o['name'] not in seen:
